@@ -266,6 +266,13 @@ where
                         st.stop = Some(StopReason::Exit(101));
                     }
                 });
+            } else {
+                // returning from main ends a process; threads that are still running are gone with it
+                rt::with(|st| {
+                    if st.stop.is_none() {
+                        st.stop = Some(StopReason::MainReturned);
+                    }
+                });
             }
         });
     }));
@@ -281,6 +288,8 @@ where
         // the process is gone; whatever the engine noticed afterwards (e.g. that
         // the consumer would have stayed blocked) is not observable
         Status::Exit(*c)
+    } else if let Some(StopReason::MainReturned) = &st.stop {
+        Status::Completed
     } else if let Some(d) = &st.deadlock {
         Status::Wedged(d.clone())
     } else {
@@ -289,6 +298,7 @@ where
             (Some(StopReason::StepCap), _) => Status::Livelock,
             (Some(StopReason::PanicUnwindAtSyncPoint), _) => Status::PanicNoExit,
             (Some(StopReason::ReplayDiverged), _) => Status::ReplayDiverged,
+            (Some(StopReason::MainReturned), _) => Status::Completed,
             (Some(StopReason::Deadlock), _) => Status::Wedged("every remaining task waits for ever (condvar / park / recv without a wake-up)".into()),
             (None, Ok(())) => Status::Completed,
             (None, Err(_)) => Status::MainPanic("engine failure (unclassified panic out of the run)".into()),
